@@ -122,9 +122,11 @@ class FortranExpressionMapper(StringifyMapper):
         else:
             exponent_str = self.rec(exponent, PREC_POWER)
 
+        # "**" associates to the right: a base that is itself a power needs
+        # parentheses, (a**b)**c is not a**b**c.
         return self.parenthesize_if_needed(
                 "{}**{}".format(
-                    self.rec(expr.base, PREC_POWER), exponent_str),
+                    self.rec(expr.base, PREC_POWER + 1), exponent_str),
                 enclosing_prec, PREC_POWER)
 
     def map_comparison(self, expr, enclosing_prec):
@@ -211,6 +213,16 @@ class PythonExpressionMapper(StringifyMapper):
         if expr.name.startswith("<func>"):
             return self._name_manager.name_function(expr.name)
         return self._name_manager[expr.name]
+
+    def map_power(self, expr, enclosing_prec, *args, **kwargs):
+        # "**" associates to the right: a base that is itself a power needs
+        # parentheses, (a**b)**c is not a**b**c.
+        from pymbolic.mapper.stringifier import PREC_POWER
+        return self.parenthesize_if_needed(
+                "{}**{}".format(
+                    self.rec(expr.base, PREC_POWER + 1, *args, **kwargs),
+                    self.rec(expr.exponent, PREC_POWER, *args, **kwargs)),
+                enclosing_prec, PREC_POWER)
 
     def map_comparison(self, expr, enclosing_prec, *args, **kwargs):
         # Python chains comparisons ("a < b == c" means "a < b and b == c"),
